@@ -247,9 +247,32 @@ func checkC15(c *Check) {
 	}
 
 	// ---- R6 the recovering code itself is total
+
+	// ---- R7 what Recovery itself calls does not panic again
+	c.Rule("R7", "shared with C13 (R2, R3)", "Recovery answers through ResponseWriter.WriteHeader: the before-functions run under the writer's once-guard (a hook that panicked is not run a second time by Recovery's own WriteHeader(500))", 4)
+	c.Share("C13", []string{"R2", "R3"}, 4)
 	c.Rule("R6", "E8 prove-pass oracle", "every index/slice operation in Recovery's handler, its deferred literal and its helper closures is proven by the compiler or is x[i+1:] with i = Index/LastIndex(x, …) on the i >= 0 edge: a panic raised after recover() would escape ServeHTTP", 1)
 	{
 		fns := withLits(rec)
+		// and the module functions they call statically (a helper that formats the panic value)
+		{
+			seen := map[*ssa.Function]bool{}
+			for _, f := range fns {
+				seen[f] = true
+			}
+			for i := 0; i < len(fns) && len(fns) < 200; i++ {
+				allInstrs(fns[i], func(in ssa.Instruction) {
+					if ci, ok := in.(ssa.CallInstruction); ok {
+						if cal := ci.Common().StaticCallee(); cal != nil && cal.Pkg != nil && !seen[cal] {
+							if _, isMod := pkgShort[cal.Pkg.Pkg.Path()]; isMod && len(cal.Blocks) > 0 {
+								seen[cal] = true
+								fns = append(fns, cal)
+							}
+						}
+					}
+				})
+			}
+		}
 		sites, err := p.IndexSites(fns)
 		if err != nil {
 			c.Bad(p.FuncKey(rec)+":prove-pass", "?", err.Error())
